@@ -333,6 +333,11 @@ pub fn gen(thorough: bool, seed: u64, out: &mut impl Write) {
       writeln!(out, "C17 new {} {}", hex(&[7u8; 32]), hex(n.as_bytes())).unwrap();
     }
   }
+  // valid names with white space around or inside them (a name is used verbatim; nothing is trimmed)
+  for n in [" dev", "dev ", " dev ", "smr\n", "\tsmr", "\u{a0}dev", "de v", " ", "  ", "\n", "iota ", " iota", "a\r", "\u{2003}a", "a\u{feff}"] {
+    writeln!(out, "C17 net {}", hex(n.as_bytes())).unwrap();
+    emit_parse(out, &format!("did:iota:{}:{}", n, tag));
+  }
   // network names that contain the tag prefix "0x", or look like (part of) a tag
   for n in ["0x", "a0x", "0xa", "10x2", "ab0xcd", "0x0x", "x0", "0", "00", "0xf29d", "f29dd1", "0X"] {
     writeln!(out, "C17 net {}", hex(n.as_bytes())).unwrap();
